@@ -15,5 +15,5 @@ Extraction "../ocaml/model.ml"
   to_config prologue_text
   decode_mappings chain chain_opt lookup find_entry vlq_encode
   collect order_issues
-  wf_all has_optchain ns_count
+  wf_all has_optchain ns_count badname badname_list configured ns_members
   sem_tie plus_name csi_get allows_literal_callers.
